@@ -18,7 +18,9 @@ open Np Drv Telstate
     l0 <fuel> <store> <query> <kwargs>                -> `<prefixes> <cb> <sn>` | E:…
          query = `k=v&k=v` | `-` ; kwargs likewise with value `~` for None and `^` for ''
     chunkinfo <fuel> <store> <prefixes> <cb> <sn> <0|1>   -> ci | E:…
-    qual <fuel> <store> <prefixes> <cb> <sn> <s>      -> 0 | 1 -/
+    qual <fuel> <store> <prefixes> <cb> <sn> <s>      -> 0 | 1
+    upci <ci> <improved ci>                           -> ci | E:…     (_upgrade_chunk_info)
+    align <ci>                                        -> ci | E:…     (_align_chunk_info) -/
 
 def toKey (s : String) : Key := if s = "^" then [] else s.toList
 def ofKey (k : Key) : String := if k.isEmpty then "^" else String.ofList k
@@ -116,6 +118,14 @@ def step (line : String) : String :=
     match fuel.toNat?, parseStore store with
     | some f, some st => if qualifies f st (parseKeys pre) (toKey cb) (toKey sn) (toKey s) then "1" else "0"
     | _, _ => "bad-op"
+  | ["upci", a, b] =>
+    match parseCi (if a = "-" then "" else a), parseCi (if b = "-" then "" else b) with
+    | some a, some b => showExcept showCi (upgradeChunkInfo a b)
+    | _, _ => "bad-op"
+  | ["align", a] =>
+    match parseCi (if a = "-" then "" else a) with
+    | some a => showExcept showCi (alignChunkInfo a)
+    | none => "bad-op"
   | _ => "bad-op"
 
 def main : IO Unit := Drv.loop step
